@@ -41,6 +41,19 @@ deriving DecidableEq, Repr
 def RecoverFact.site (f : RecoverFact) : String :=
   "recover:" ++ f.file ++ ":" ++ f.fn ++ ":" ++ f.guard
 
+/-- a type assertion `x.(T)` without the comma-ok form (it panics when `x` holds another type or nil) in the command
+    layer; `safe` = it stands in the clause of a type switch over the same expression that lists exactly `T` -/
+structure AssertFact where
+  file : String
+  fn : String
+  expr : String
+  safe : Bool
+  count : Nat
+deriving DecidableEq, Repr
+
+def AssertFact.site (f : AssertFact) : String :=
+  "assert:" ++ f.file ++ ":" ++ f.fn ++ ":" ++ f.expr
+
 /-! ## index guards: `s[k]` / `s[len(s)-k]` under path conditions on `len(s)` -/
 
 /-- a path condition on `len(s)` -/
